@@ -24,6 +24,10 @@ CLAIMED = {
                 note="E6 (queue.Queue put/get are critical sections calling _put/_get), atomic attribute loads, items' == is an equivalence. The equality law of event objects is decided structurally (dataclass lemmas from the AST) plus a bounded all-pairs battery, not by SMT.", ref="4/C16"),
     "C11": dict(text="queue_event queues iff the filter is None or the event is an instance of a filter class; get_event_mask_from_filter: loop invariant + postcondition 'needs(class, bit, recursive) => bit in mask' for all 13 classes x 10 kernel bits, with `needs` computed from the statement's translation table (not from the function); default mask and ABI constants as lemmas.",
                 note="The translation table is C03's proved postcondition; E8 (the kernel reports a record only if its bit is requested). Over-approximate masks are allowed. The unchanged tree violated 33 (class<-bit) obligations: repaired by a fix: commit.", ref="4/C11"),
+    "C03": dict(text="InotifyEmitter.queue_events: for every native record (each of the 15 event bits x IN_ISDIR, or a rename pair) x recursive x full-emitter x root-or-not, the exact sequence of queued events equals the statement's translation table (class, paths, parent events, synthetic sub-events forwarded once and in order, stop iff root deleted); is_synthetic is False on every directly built event.",
+                note="PARTIAL: 'explained by the operation history' is not decided (needs the kernel). E8 (one event bit per record), C14's contract for the generators, dirname/fsdecode uninterpreted with E2/E3 axioms. Known limitation: stale watch of a moved-out directory (phantom events) - see DESIGN.md.", ref="4/C03"),
+    "C19": dict(text="Ghost type tag on every path: ObservedWatch.__init__ (Path -> str), on_thread_start (kernel side gets fsencode(watch.path)), _decode_path (type of the watch path, fsencode(result) = native), and for every row of the translation table every non-empty event path has the watch path's type and fsencode of each directly built path is the native path / its dirname; watch identity keeps the path type (key/__eq__). Polling side: walk/queue_events contracts of C10.",
+                note="E3 fsencode(fsdecode(b)) = b, E2 dirname commutes with decoding, C14/E1 for synthetic events. That the native path is root joined with the real relative name is C02's bookkeeping.", ref="4/C19"),
 }
 
 NOT_APPLICABLE = {
